@@ -660,15 +660,19 @@ proof fn lemma_take_push(qs: Seq<u32>, i: int, u: int)
     }
     if qs[i] == u { assert(b[i] == u); }
 }
+// what handling queue entry i does to the builder: the state gets its own fresh record (parent: the list of its fail target) or inherits the list of its fail target
+spec fn outs_step_rel<V>(n: NfaBuilder<u8, V>, b: NfaBuilder<u8, V>, b2: NfaBuilder<u8, V>, qs: Seq<u32>, i: int) -> bool {
+    let s = qs[i] as int; let f = n.states@[s].fail as int;
+    match n.states@[s].output {
+        Some(o) => b.outputs@.len() < u32::MAX && set_opos(b, b2, s, b2.states@[s].output_pos, Some(Output { value: o.0, length: o.1@, parent: b.states@[f].output_pos }))
+                     && opt_n(b2.states@[s].output_pos) == b.outputs@.len() + 1,
+        None => set_opos(b, b2, s, b.states@[f].output_pos, None),
+    }
+}
 // one queue entry handled
 proof fn lemma_outs_step<V>(n: NfaBuilder<u8, V>, b: NfaBuilder<u8, V>, b2: NfaBuilder<u8, V>, qs: Seq<u32>, i: int)
     requires octx(n, qs), outs_inv(n, b, qs, i), 0 <= i < qs.len(),
-        ({ let s = qs[i] as int; let f = n.states@[s].fail as int;
-           match n.states@[s].output {
-               Some(o) => b.outputs@.len() < u32::MAX && set_opos(b, b2, s, b2.states@[s].output_pos, Some(Output { value: o.0, length: o.1@, parent: b.states@[f].output_pos }))
-                            && opt_n(b2.states@[s].output_pos) == b.outputs@.len() + 1,
-               None => set_opos(b, b2, s, b.states@[f].output_pos, None),
-           } }),
+        outs_step_rel(n, b, b2, qs, i),
     ensures outs_inv(n, b2, qs, i + 1),
 {
     reveal(outs_inv); reveal(octx);
@@ -692,12 +696,7 @@ proof fn lemma_outs_step<V>(n: NfaBuilder<u8, V>, b: NfaBuilder<u8, V>, b2: NfaB
 // ... and its output list, for Aho-Corasick fail links
 proof fn lemma_outs_ac_step<V>(n: NfaBuilder<u8, V>, b: NfaBuilder<u8, V>, b2: NfaBuilder<u8, V>, qs: Seq<u32>, i: int)
     requires octx(n, qs), ac_fail(n), outs_inv(n, b, qs, i), outs_ac(n, b, qs, i), 0 <= i < qs.len(),
-        ({ let s = qs[i] as int; let f = n.states@[s].fail as int;
-           match n.states@[s].output {
-               Some(o) => b.outputs@.len() < u32::MAX && set_opos(b, b2, s, b2.states@[s].output_pos, Some(Output { value: o.0, length: o.1@, parent: b.states@[f].output_pos }))
-                            && opt_n(b2.states@[s].output_pos) == b.outputs@.len() + 1,
-               None => set_opos(b, b2, s, b.states@[f].output_pos, None),
-           } }),
+        outs_step_rel(n, b, b2, qs, i),
     ensures outs_ac(n, b2, qs, i + 1),
 {
     reveal(outs_inv); reveal(outs_ac); reveal(octx);
